@@ -5,7 +5,7 @@ import contextlib
 import io
 from typing import Any, Dict, List
 
-from harness import gen_parse
+from harness import gen_imm, gen_parse
 from props import kprop
 from props.c11 import SAMPLE_IMM
 from props.common import Ctx
@@ -94,12 +94,13 @@ def run(ctx: Ctx) -> int:
     from tealer.teal import parse_teal as PT
 
     return kprop.run_k(
-        ctx, "C16", [gen_parse],
+        ctx, "C16", [gen_parse, (gen_imm, r"^k_immrt_|^k_imm_unlisted_|^k_immfx_Replace_none$", {"which": "rt"})],
         "bounded symbolic execution (CrossHair/z3) of the real parse_line / _parse_int / first_pass on lines built from symbolic characters: decimal (<= 4 digits), hex (<= 2 quick / "
         "3 thorough digits) and octal (<= 3 digits) integer literals give the value the assembler computes; named constants; index immediates of gtxn/load/dig/intc/cover/popn; "
         "0-2 leading blanks or tabs, 0-2 trailing blanks and an optional trailing comment do not change the instruction; hex byte literals (1-2 bytes) and quoted strings of <= 3 "
         "symbolic characters drawn from {a, space, /, //, escaped quote, :} are kept verbatim with the trailing comment split off; unknown opcodes become UnsupportedInstruction with "
-        "the verbatim line; recorded line numbers with 0-2 blank / comment lines around. The finite part - dispatch of every opcode of the independent AVM table (prefix pairs "
+        "the verbatim line; recorded line numbers with 0-2 blank / comment lines around; for every instruction class with integer immediates (read from the live module, pseudo-ops "
+        "such as `replace [s]` included) the print / parse round trip on the boundary values of the immediate (0, 1, 2, 7, 8, 9, 10, 100, 255; pairs over 0, 1, 9, 255). The finite part - dispatch of every opcode of the independent AVM table (prefix pairs "
         "included), every field name, print/parse round trip, base64/base32 forms - is enumerated completely and has no symbolic dimension",
         [lambda: PI.parse_line, lambda: PI._parse_int, lambda: PI._split_instruction_into_tokens, lambda: PI._parse_byte_arguments, lambda: PTF.parse_transaction_field, lambda: PGF.parse_global_field, lambda: PT.first_pass],
         {"decimal_digits": 4, "hex_digits": "2/3", "octal_digits": 3, "quoted_chars": 3, "blanks": "0..2"},
